@@ -1,7 +1,9 @@
 #!/usr/bin/env python3
-"""Stores the wave-7 seeded changes (three per property, /tmp/mutout/<id>/{a,b,c}) under seeded/<id>_7{a,b,c}, runs the check of
-the property against each (tools/evalpatch.sh, seeds 0 1 2, failing inputs added to the regression corpus) and records the
-outcome in meta.json.  usage: tools/storewave7.py [ids...]"""
+"""Stores the seeded changes of a wave with three changes per property (SRC/<id>/{a,b,c}, default /tmp/mutout, WAVE default 7)
+under seeded/<id>_<WAVE>{a,b,c}, runs the check of the property against each (tools/evalpatch.sh, seeds 0 1 2, failing inputs
+added to the regression corpus) and records the outcome in meta.json; with STORE=0 it only evaluates and prints.
+Notes on the changes missed at first are read from tools/wave<WAVE>_notes.json when present.
+usage: [WAVE=8 SRC=/tmp/mutout8 STORE=0 VERIF_ROOT=<scratch copy>] tools/storewave7.py [ids...]"""
 import json
 import os
 import shutil
@@ -10,7 +12,9 @@ import sys
 
 V = '/verif'
 ROOT = os.environ.get('VERIF_ROOT', V)     # where the checks run (a scratch copy of /verif for parallel workers)
-SRC = '/tmp/mutout'
+SRC = os.environ.get('SRC', '/tmp/mutout')
+WAVE = os.environ.get('WAVE', '7')
+STORE = os.environ.get('STORE', '1') == '1'
 
 # what was missing when the change was written, and what was strengthened (only for those missed at first)
 NOTES = {
@@ -52,6 +56,10 @@ NOTES = {
 
 
 def main():
+    notes = NOTES
+    np_ = os.path.join(V, 'tools', 'wave%s_notes.json' % WAVE)
+    if WAVE != '7':
+        notes = json.load(open(np_)) if os.path.exists(np_) else {}
     ids = sys.argv[1:] or ['C%02d' % i for i in range(1, 20)]
     for pid in ids:
         for x in 'abc':
@@ -59,14 +67,14 @@ def main():
             if not os.path.exists(os.path.join(src, 'patch.diff')):
                 print(pid, x, 'no patch')
                 continue
-            sid = '%s_7%s' % (pid, x)
-            dst = os.path.join(V, 'seeded', sid)
+            sid = '%s_%s%s' % (pid, WAVE, x)
+            dst = os.path.join(V, 'seeded', sid) if STORE else os.path.join('/tmp', 'wave_eval', sid)
             os.makedirs(dst, exist_ok=True)
             for fn in ('patch.diff', 'demo.py'):
                 if os.path.exists(os.path.join(src, fn)):
                     shutil.copy(os.path.join(src, fn), os.path.join(dst, fn))
             meta = json.load(open(os.path.join(src, 'meta.json')))
-            env = dict(os.environ, ADD_CORPUS='seeded/' + sid)
+            env = dict(os.environ, ADD_CORPUS='seeded/' + sid) if STORE else dict(os.environ)
             out = subprocess.run([os.path.join(ROOT, 'tools/evalpatch.sh'), pid, os.path.join(dst, 'patch.diff'), sid, '0', '1', '2'],
                                  env=env, capture_output=True, text=True).stdout
             lines = [l for l in out.splitlines() if l.startswith(sid)]
@@ -74,20 +82,23 @@ def main():
             caught = [l for l in lines if 'VIOLATION' in l]
             nofail = [l for l in caught if 'no-failing-input-found' in l]
             key = pid + x
-            meta.update({'breaks_property': pid, 'wave': 7,
+            meta.update({'breaks_property': pid, 'wave': int(WAVE),
                          'what_i_ran': 'tools/evalpatch.sh %s seeded/%s/patch.diff %s 0 1 2 (scratch worktree of HEAD)' % (pid, sid, sid),
                          'eval': {'applies_to_head': applies, 'seeds': 3, 'violation_under': len(caught),
                                   'no_failing_input_under': len(nofail)}})
             if not applies:
-                res = 'not applicable any more: ' + NOTES.get(key, 'the code changed since')
-            elif key in NOTES:
-                res = ('not caught by the checks as they stood when the change was written: ' + NOTES[key] +
+                res = 'not applicable any more: ' + notes.get(key, 'the code changed since')
+            elif key in notes:
+                res = ('not caught by the checks as they stood when the change was written: ' + notes[key] +
                        '; now VIOLATION under %d of 3 seeds before its failing inputs joined the regression corpus' % len(caught))
             else:
                 res = 'caught by the checks as they stood: VIOLATION under %d of 3 seeds' % len(caught)
             meta['result'] = res
             meta['caught_by'] = [pid] if caught else []
             json.dump(meta, open(os.path.join(dst, 'meta.json'), 'w'), indent=1, ensure_ascii=False)
+            if not STORE:
+                for l in lines:
+                    print('   ', l[:330], flush=True)
             print(sid, 'applies' if applies else 'NOAPPLY', 'caught %d/3' % len(caught), 'nofail %d' % len(nofail), flush=True)
             for l in out.splitlines():
                 if 'corpus' in l.lower():
